@@ -1,5 +1,5 @@
 (* CheckC06.v — executable comparison for C06 *)
-From MQ Require Import Base Codec Inbound Parse ParseSpec ParsePending ParseExit ParseResub.
+From MQ Require Import Base Codec Inbound Parse ParseSpec ParsePending ParseExit ParseResub ParseMux.
 Open Scope N_scope.
 
 Inductive parse_obs :=
@@ -341,3 +341,33 @@ Definition resub_model_ok (c : resub_case) : bool :=
 Definition c06_resub_violations (cs : list resub_case) : list nat := first_indices (fun c => negb (resub_ok c)) cs.
 Definition c06_resub_mismatches (cs : list resub_case) : list nat :=
   first_indices (fun c => let '(_, alive, _, _, _, _) := c in alive && negb (resub_model_ok c)) cs.
+
+(* ---------- streams into a client whose handler is a ServeMux / ServeAsync ---------- *)
+(* (deliveries happen on other goroutines: ServeAsync; the handler tree; stream; the process
+   survived and nothing stuck; Err(); state log is [Active; Closed(err)] with Done closed; what
+   each application function received: (function number, message)) *)
+Definition mux_case := (bool * hnd * list N * bool * option perr * bool * list (nat * message))%type.
+
+(* no panic on the reader goroutine (or a delivery goroutine) whatever topic name the broker
+   chose, and the link ends as the property says *)
+Definition mux_ok (c : mux_case) : bool :=
+  let '(async, h, s, alive, err, closed_ok, ds) := c in
+  alive && closed_ok
+  && (if has_malformed s then err_is is_protocol_error err else err_is is_eof err).
+
+Definition delivery_eqb (a b : nat * message) : bool := Nat.eqb (fst a) (fst b) && message_eqb (snd a) (snd b).
+
+Definition perm_eqb {A} (eqb : A -> A -> bool) (a b : list A) : bool :=
+  Nat.eqb (length a) (length b) &&
+  forallb (fun x => Nat.eqb (count_occ_b eqb x a) (count_occ_b eqb x b)) a.
+
+Definition mux_model_ok (c : mux_case) : bool :=
+  let '(async, h, s, alive, err, closed_ok, ds) := c in
+  let '(mev, mend) := serve true s in
+  let want := deliveries h (sv_in_events mev) in
+  match mend with EndErr e => option_eqb perr_eqb err (Some e) | _ => false end
+  && (if async then perm_eqb delivery_eqb ds want else list_eqb delivery_eqb ds want).
+
+Definition c06_mux_violations (cs : list mux_case) : list nat := first_indices (fun c => negb (mux_ok c)) cs.
+Definition c06_mux_mismatches (cs : list mux_case) : list nat :=
+  first_indices (fun c => let '(_, _, _, alive, _, _, _) := c in alive && negb (mux_model_ok c)) cs.
